@@ -1,0 +1,53 @@
+// SPDX-License-Identifier: (Apache-2.0 OR MIT)
+
+//! Verification hooks (cargo feature `verif-hooks`, off by default).
+//!
+//! The only hook is an optional instruction budget for the interpreter, so that an external
+//! explorer can run arbitrary verifier-accepted programs (which may loop forever) and still get
+//! control back. With the budget unset (the default) the interpreter behaves exactly as without
+//! the feature.
+
+// u64::MAX means "no budget".
+#[cfg(feature = "std")]
+std::thread_local! {
+    static BUDGET: core::cell::Cell<u64> = const { core::cell::Cell::new(u64::MAX) };
+}
+#[cfg(not(feature = "std"))]
+static BUDGET: core::sync::atomic::AtomicU64 = core::sync::atomic::AtomicU64::new(u64::MAX);
+
+#[cfg(feature = "std")]
+fn get() -> u64 {
+    BUDGET.with(|b| b.get())
+}
+#[cfg(feature = "std")]
+fn set(v: u64) {
+    BUDGET.with(|b| b.set(v))
+}
+#[cfg(not(feature = "std"))]
+fn get() -> u64 {
+    BUDGET.load(core::sync::atomic::Ordering::Relaxed)
+}
+#[cfg(not(feature = "std"))]
+fn set(v: u64) {
+    BUDGET.store(v, core::sync::atomic::Ordering::Relaxed)
+}
+
+/// Set (`Some(n)`) or clear (`None`) the number of instructions the interpreter may still execute
+/// (per thread with `std`, per process without).
+pub fn set_insn_budget(budget: Option<u64>) {
+    set(budget.unwrap_or(u64::MAX));
+}
+
+/// Called once per interpreted instruction; returns `true` when the budget is exhausted.
+#[inline]
+pub(crate) fn tick() -> bool {
+    let b = get();
+    if b == u64::MAX {
+        return false;
+    }
+    if b == 0 {
+        return true;
+    }
+    set(b - 1);
+    false
+}
